@@ -553,7 +553,7 @@ func (f *specFont) parsePrivate(d []byte) error {
 	for name, g := range f.Glyphs {
 		specRunCharstring(g, f.Subrs)
 		if g.Err != nil {
-			return fmt.Errorf("glyph %s: %v", name, g.Err)
+			return fmt.Errorf("glyph %s: %v (charstring %x)", name, g.Err, g.Raw)
 		}
 	}
 	return nil
